@@ -471,6 +471,8 @@ H("send_write_chunks_native", ["C05"], "replay-only", "connection::streams::send
   [("credit", "u8"), ("chunk", "u8"), ("n", "u8")], 4, [], ["SendStream::write_chunks", "Send::write", "SendBuffer::write"], "native replay body of E2 slice query e2_send_write_loop_iteration")
 H("streams_reset_then_stop_credit_native", ["C06"], "replay-only", "connection::streams::reset_then_stop_credit_native",
   [("buffered", "u8"), ("extra", "u8")], 4, [], ["StreamsState::received_reset", "RecvStream::stop", "StreamsState::add_read_credits"], "native demonstration for finding 17: credit after RESET_STREAM + stop")
+H("streams_illegal_ordered_read_native", ["C11", "C06"], "replay-only", "connection::streams::illegal_ordered_read_native",
+  [("x", "u8")], 4, [], ["RecvStream::read", "Chunks::new", "Assembler::ensure_ordering"], "native replay body of E2 query e2_chunks_new_keeps_stream_on_error; demonstration for finding 18")
 H("streams_stop_sending_native", ["C11"], "replay-only", "connection::streams::stop_sending_native",
   [("state", "u8")], 4, [], ["StreamsState::received_stop_sending", "Send::try_stop", "SendStream::write"], "native replay body of E2 query e2_received_stop_sending")
 H("streams_reset_acked_native", ["C11"], "replay-only", "connection::streams::reset_acked_native",
